@@ -23,6 +23,8 @@ func checkC01(c *Ctx) Meta {
 	c.Rule("C01-DUP", "a keystore already present is rejected before anything is written: the account id entry and the keystore bucket are created only behind the 'id not present' edge, the bucket with NewBucket (which fails if it exists)", 3)
 	c.Rule("C01-DELETE", "delete removes what create made: DeleteKeystore returns success only after clearing the keystore bucket, deleting it from the manager bucket under its own name, and deleting its account id — all in its transaction", 3)
 
+	c.Rule("C01-CHAIN", "what is stored decrypts with what is stored beside it: in create and in import the key that seals the master HD key is the very crypto key whose bytes are sealed into cpriv, the master key that seals those bytes is the one whose parameters are stored as mpriv, and the same crypto key is handed to createManagerKeyScope; the parsed master key keeps the decoded 32 bytes", 7)
+	c01Chain(c)
 	c01Fields(c)
 	c01Branch(c)
 	c01Auth(c)
@@ -649,6 +651,104 @@ func c01Delete(c *Ctx) {
 			c.Bad(rule, key, c.Pos(cl0.Pos()), "the delete transaction can commit without this step")
 		default:
 			c.OK(rule, key, c.Pos(cl0.Pos()), "every committing path of the transaction passes this step")
+		}
+	}
+}
+
+// ---- CHAIN --------------------------------------------------------------------------------
+
+func c01Chain(c *Ctx) {
+	rule := "C01-CHAIN"
+	encOrigin := func(fn *ssa.Function, v ssa.Value) *ssa.Call {
+		var out *ssa.Call
+		valueOrigins(fn, v, func(r ssa.Value) {
+			if cl, ok := r.(*ssa.Call); ok && callName(cl) == "Encrypt" {
+				out = cl
+			}
+			if ex, ok := r.(*ssa.Extract); ok {
+				if cl, ok := ex.Tuple.(*ssa.Call); ok && callName(cl) == "Encrypt" {
+					out = cl
+				}
+			}
+		})
+		return out
+	}
+	for _, name := range []string{"create", "(*KeystoreManagerForPoC).allocAddrMgrNamespace"} {
+		f := c.MustFn(rule, "poc/wallet/keystore", name)
+		if f == nil {
+			continue
+		}
+		short := strings.TrimPrefix(name, "(*KeystoreManagerForPoC).")
+		hd := firstCall(f, pkgKeystore+".putMasterHDKeys")
+		ck := firstCall(f, pkgKeystore+".putCryptoKeys")
+		mp := firstCall(f, pkgKeystore+".putMasterKeyParams")
+		sc := firstCall(f, pkgKeystore+".createManagerKeyScope")
+		if hd == nil || ck == nil || mp == nil || sc == nil {
+			c.Bad(rule, short+":anchor", c.Pos(f.Pos()), "reason=anchor-missing: putMasterHDKeys / putCryptoKeys / putMasterKeyParams / createManagerKeyScope")
+			continue
+		}
+		hdEnc := encOrigin(f, hd.Call.Args[1])
+		ckEnc := encOrigin(f, ck.Call.Args[2])
+		if hdEnc == nil || ckEnc == nil {
+			c.Bad(rule, short+":anchor", c.Pos(f.Pos()), "reason=anchor-missing: the Encrypt calls producing mhdpriv / cpriv")
+			continue
+		}
+		// the crypto key object whose bytes go into cpriv
+		var bytesRecv ssa.Value
+		for x := range backSlice(callArgs(ckEnc)[0]).vals {
+			if b, ok := x.(*ssa.Call); ok && callName(b) == "Bytes" {
+				bytesRecv = callRecv(b)
+			}
+		}
+		key := short + ":mhdpriv-sealed-by-the-stored-crypto-key"
+		if bytesRecv != nil && sameOriginValue(f, callRecv(hdEnc), bytesRecv) {
+			c.OK(rule, key, c.Pos(hdEnc.Pos()), "the master HD key is encrypted by the crypto key whose bytes are stored (encrypted) as cpriv")
+		} else {
+			c.Bad(rule, key, c.Pos(hdEnc.Pos()), "the master HD key is encrypted under a key other than the private crypto key stored beside it: the keystore works until it is exported — every file it exports is undecryptable")
+		}
+		key = short + ":scope-keys-sealed-by-the-stored-crypto-key"
+		// createManagerKeyScope(km, root, cryptoKeyPub, cryptoKeyPriv, …)
+		privArg := -1
+		for i, p := range sc.Call.StaticCallee().Params {
+			if p.Name() == "cryptoKeyPriv" {
+				privArg = i
+			}
+		}
+		if privArg >= 0 && bytesRecv != nil && sameOriginValue(f, sc.Call.Args[privArg], bytesRecv) {
+			c.OK(rule, key, c.Pos(sc.Pos()), "the account key is encrypted by the same private crypto key")
+		} else {
+			c.Bad(rule, key, c.Pos(sc.Pos()), "createManagerKeyScope receives a private crypto key other than the one stored as cpriv: the account key cannot be decrypted after unlock")
+		}
+		key = short + ":cpriv-sealed-by-the-stored-master-key"
+		var marshalRecv ssa.Value
+		for x := range backSlice(mp.Call.Args[2]).vals {
+			if m, ok := x.(*ssa.Call); ok && callName(m) == "Marshal" {
+				marshalRecv = callRecv(m)
+			}
+		}
+		if marshalRecv != nil && sameOriginValue(f, callRecv(ckEnc), marshalRecv) {
+			c.OK(rule, key, c.Pos(ckEnc.Pos()), "cpriv is encrypted by the master key whose parameters are stored as mpriv")
+		} else {
+			c.Bad(rule, key, c.Pos(ckEnc.Pos()), "the private crypto key is encrypted under a master key whose parameters are not the ones stored: no passphrase opens the keystore")
+		}
+	}
+	if f := c.MustFn(rule, "poc/wallet/keystore/hdkeychain", "NewKeyFromString"); f != nil {
+		key := "NewKeyFromString:keeps-decoded-bytes"
+		bad := false
+		n := 0
+		for _, cl := range callsIn(f, pkgHD+".NewExtendedKey") {
+			n++
+			if backSlice(cl.Call.Args[1]).hasCallTo("(*math/big.Int).Bytes") {
+				bad = true
+			}
+		}
+		switch {
+		case n == 0:
+			c.Bad(rule, key, c.Pos(f.Pos()), "reason=anchor-missing: NewExtendedKey call")
+		case bad:
+			c.Bad(rule, key, c.Pos(f.Pos()), "the parsed private key is re-encoded through big.Int.Bytes(): a key with a leading zero byte comes back shorter than 32 bytes and its hardened children (hence the imported keystore's id and every address) differ from the exported wallet's")
+		default:
+			c.OK(rule, key, c.Pos(f.Pos()), "the key handed to NewExtendedKey is the decoded payload itself")
 		}
 	}
 }
